@@ -501,3 +501,155 @@ class C14(E2ECheck):
                                     '(5,40,10): size 0..600|None x chunk '
                                     '1..80',
                 'explanation': 'exhaustive: true refers to sub-domain (a)'}
+
+
+class C15(Check):
+    id = 'C15'
+    quick_examples = 0
+    thorough_examples = 0
+    assumptions = [
+        'input shapes come from the installed botocore S3 service model '
+        '(loaded from disk)',
+        'abort_multipart_upload is judged only for unknown parameter names '
+        '(DESIGN 3.9); on the copy HeadObject the destination SSE-C '
+        'arguments are not judged',
+        'fake client records keyword arguments; strict parameter validation '
+        'is off so that unknown names are reported by the oracle',
+    ]
+    rule = ('exhaustive over the finite cell space: TransferManager upload / '
+            'download / copy / delete x {single, multipart|ranged} x {size '
+            'discovered, provided in on_queued} x request_checksum_'
+            'calculation x {every allowed argument alone, every subset (>=2) '
+            'of the checksum family for uploads, all arguments together}, '
+            'plus every S3 input member name outside the allow-list '
+            '(rejection before any request); every cell is non-trivial; '
+            'distinct = the cell')
+
+    def extra_shards(self, tier):
+        return 16
+
+    def run_cell(self, cell):
+        from ..units import routing
+        from ..e2e import run_case
+        case = routing.make_case(*cell)
+        R = run_case(case)
+        if R.harness_error is not None:
+            raise R.harness_error
+        return case, routing.judge(R, cell)
+
+    def execute(self, case):
+        cell = tuple(case['cell'][:4]) + (tuple(case['cell'][4]),)
+        _, viol = self.run_cell(cell)
+        return {'violations': viol, 'cls': [cell[0]], 'nontrivial': True}
+
+    def extra_shard(self, tier, seed, shard, nshards, stats):
+        from ..units import routing
+        allc = routing.cells() + routing.disallowed_cells()
+        for idx, cell in enumerate(allc):
+            if idx % nshards != shard:
+                continue
+            case, viol = self.run_cell(cell)
+            al = cell[4] and cell[4][0] not in \
+                routing.allowed_lists()[cell[0]]
+            stats.add(case, {
+                'violations': viol, 'nontrivial': True,
+                'cls': [f'{cell[0]}:{cell[1]}:'
+                        f'{"disallowed" if al else "allowed"}'],
+                'fp': repr(cell)}, max_samples=1)
+
+    def coverage_extra(self, tier, results):
+        return {'exhaustive': True,
+                'explanation': 'the cell space is finite and enumerated '
+                               'completely in both tiers'}
+
+
+class C13(E2ECheck):
+    id = 'C13'
+    quick_examples = 40000
+    thorough_examples = 500000
+    assumptions = TRUSTED + [
+        'virtual time: s3transfer.bandwidth.time is the scheduler clock; '
+        'time only advances when every thread is parked',
+        'burst allowance K=3 x (bytes_threshold + largest read) per stream '
+        '(DESIGN 3.8); demand-below-limit judged when bytes_threshold<=1 so '
+        'that every read is one consumption',
+    ]
+    rule = ('(a) discrete-event simulation in virtual time on the real '
+            'LeakyBucket/BandwidthLimitedStream: 1-8 streams with drawn '
+            '(read size, think time) scripts biased to amount/max_bandwidth x'
+            ' {0,.5,.99,1,1.01,1.25}, drawn bytes_threshold, late wake-ups, '
+            'streams whose transfer fails at a drawn time (also while parked'
+            ' in the sleep), drawn schedule; oracle over the history of read '
+            'events and requested sleeps (window rate bound, no delay below '
+            'the limit, one bounded wait per throttled read, failed '
+            'transfers raise, no starvation); (b) end-to-end uploads/'
+            'downloads with max_bandwidth set (manager wiring; signing reads '
+            'not charged); non-trivial = >=2 streams and >=1 refused read')
+    profile = {
+        'types': ['upload', 'download'], 'ntransfers': (1, 3),
+        'subs': {'max': 1, 'size': True}, 'body_scripts': True,
+        'stream_scripts': True, 'ends': ['shutdown'], 'cancels': 1,
+        'max_thr': 30, 'max_chunk': 12,
+    }
+
+    def strategy(self, tier):
+        from ..units import bandwidth
+
+        def with_bw(c, bwv, thr):
+            c = dict(c, kind='e2e', bw_threshold=thr)
+            c['cfg'] = dict(c['cfg'], max_bandwidth=bwv)
+            return c
+        e2e = st.builds(with_bw, gen.e2e_cases(self.profile),
+                        st.sampled_from([5, 20, 100, 1000]),
+                        st.sampled_from([1, 4, 16]))
+        return st.one_of(bandwidth.histories(), bandwidth.histories(),
+                         bandwidth.histories(), e2e)
+
+    @staticmethod
+    def oracle(R):
+        return oracles.oracle_c13_e2e(R)
+
+    def classify(self, R):
+        n = len(R.bw_sleeps)
+        return [f'e2e:sleeps={min(n, 3)}'], n >= 1 and len(R.transfers) >= 2
+
+    def execute(self, case):
+        from ..units import bandwidth
+        if case.get('kind') == 'des':
+            out = {'violations': [], 'cls': ['des'], 'nontrivial': False}
+            viol, info = bandwidth.run_history(case)
+            if viol:
+                out['violations'].append(('c13:' + viol[0], viol[1]))
+            out['nontrivial'] = info.get('streams', 0) >= 2 and \
+                info.get('refused', 0) >= 1
+            out['cls'] = [f'des:refused={min(info.get("refused", 0), 3)}'
+                          f':parked-abandon={info.get("abandoned_parked")}'
+                          f':below={info.get("below")}']
+            return out
+        return super().execute(case)
+
+    def shrink_candidates(self, case):
+        if case.get('kind') == 'des':
+            c = copy.deepcopy(case)
+            c['sched'] = {'mode': 'walk', 'choices': []}
+            yield c
+            for k in ('late', 'abandon'):
+                for i in range(len(case.get(k) or [])):
+                    c = copy.deepcopy(case)
+                    del c[k][i]
+                    yield c
+            for i in range(len(case['streams'])):
+                if len(case['streams']) > 1:
+                    c = copy.deepcopy(case)
+                    del c['streams'][i]
+                    c['abandon'] = [a for a in c['abandon'] if a[0] <
+                                    len(c['streams'])]
+                    yield c
+                for j in range(len(case['streams'][i])):
+                    if len(case['streams'][i]) > 1:
+                        c = copy.deepcopy(case)
+                        del c['streams'][i][j]
+                        yield c
+            return
+        for c in super().shrink_candidates(case):
+            yield dict(c, kind='e2e')
